@@ -267,7 +267,9 @@ func gen(t *rapid.T) Case {
 	}
 	if !jitter && !c.Bisector && !c.Micro && !c.Trap && c.Offset == 0 && rapid.IntRange(0, 11).Draw(t, "huge") == 5 {
 		c.Huge = rapid.SampledFrom([]int{520, 540, 600, 700}).Draw(t, "hugek")
-		mv := func(p vkit.P2) vkit.P2 { return vkit.MkP(math.Ldexp(float64(p[0]), c.Huge), math.Ldexp(float64(p[1]), c.Huge)) }
+		mv := func(p vkit.P2) vkit.P2 {
+			return vkit.MkP(math.Ldexp(float64(p[0]), c.Huge), math.Ldexp(float64(p[1]), c.Huge))
+		}
 		for i := range c.Nodes {
 			c.Nodes[i] = mv(c.Nodes[i])
 		}
@@ -597,7 +599,8 @@ func TestProp(t *testing.T) {
 			"returned pieces must be input links forming a walk from a nearest node of the start point to a nearest node of the end point, reported totals = sums over the chain, " +
 			"start/endDistance = distances to those nodes, chain cost = Dijkstra optimum (1e-9), empty iff same node or disconnected. Non-trivial = the optimal chain has more links " +
 			"than the fewest-links chain between the same nodes. Distinct by case hash." +
-			" Round 10: 'trap' networks (1 eligible case in 8): moved 1e8 along x only, two more nodes and links so that a link end lies within tolerance of a node that is not its nearest.",
+			" Round 10: 'trap' networks (1 eligible case in 8): moved 1e8 along x only, two more nodes and links so that a link end lies within tolerance of a node that is not its nearest." +
+			" Round 11: one eligible case in twelve multiplies every coordinate by 2^520, 2^540, 2^600 or 2^700.",
 		Assumptions: []string{"ties for the nearest node are resolved by accepting any nearest node"},
 		Gen:         gen,
 		Run:         run,
